@@ -1,7 +1,7 @@
 (* C01 — point evaluation computes the function the expression denotes.
    Statements only. *)
 From Coq Require Import List Arith.
-From LF Require Import Base.Opcode Base.Num Base.Arena Eval.Deck Eval.Batch.
+From LF Require Import Base.Opcode Base.Num Base.Arena Base.Sem Tree.Build Tree.BuildSem Eval.Deck Eval.Batch Eval.DeckSem.
 
 (* Batch evaluation is slot-wise: position k of a batch of any size (any
    count_simd, any stale contents in the other positions) is the single-point
@@ -14,3 +14,21 @@ Theorem C01_batch_pointwise :
     slice O k (eval_tape_b O oracle_at cs d tape v) = eval_tape O oracle_at d tape (slice O k v).
 Proof. exact @batch_pointwise. Qed.
 Print Assumptions C01_batch_pointwise.
+
+(* Tree::walk + Deck::Deck + leaves-to-root tape evaluation compute the
+   denotation of the (flattened, optimised) DAG: for every number type, every
+   well-formed arena whose nodes up to the root are plain (constants, X/Y/Z
+   singletons, free variables, unary and binary operations), every point and
+   variable assignment.  Includes the correctness of the two-pass
+   reference-counted topological sort (Kahn's algorithm with an explicit stack). *)
+Theorem C01_deck_correct :
+  forall (num : Type) (O : ops num) (osem : nat -> num -> num -> num -> num)
+         (oracle_at : nat -> num -> num -> num -> num)
+         (a : arena num) (root : nat) (vars : nat -> num) (x y z : num),
+    arena_wf a -> base_ok O a -> root < length a ->
+    (forall m, m <= root -> pure_at a m) ->
+    let d := mk_deck a root in
+    tape_value O oracle_at d (d_tape d) (d_root d) vars x y z
+    = val O osem a root {| ex := x; ey := y; ez := z; ev := vars |}.
+Proof. exact @deck_correct. Qed.
+Print Assumptions C01_deck_correct.
